@@ -2,11 +2,12 @@ SPECIFICATION TSpec
 CONSTANTS
   Line = 1
   NCaches = 0
+  TrackWrites = FALSE
   MaxInFlight = 4
   MCReqs = {}
   MaxReq = 0
   MemSize = 1
-INVARIANTS TCompleteOnceAfterAll TSubsExact D2HData Bounded
+INVARIANTS TCompleteOnce Bounded
 CONSTRAINT Mark
 POSTCONDITION Accepted
 CHECK_DEADLOCK FALSE
